@@ -866,7 +866,7 @@ func (e *FnEnc) specEnv(st, old State, phiOver map[*ssa.Phi]Val) *Env {
 	for k, v := range e.lets {
 		env.vars[k] = v
 	}
-	env.lookup = func(name string) (Val, bool) { return e.lookupName(env, name, phiOver) }
+	env.lookup = func(cur *Env, name string) (Val, bool) { return e.lookupName(cur, name, phiOver) }
 	return env
 }
 
@@ -1090,6 +1090,19 @@ func (e *FnEnc) contractCall(v ssa.Value, con *FuncContract, callee *ssa.Functio
 		e.obligeClause(env, c, name, "pre", e.curGuard, e.posOf(in))
 		if t, err := env.EvalBool(c.Expr); err == nil {
 			e.assume(t)
+		}
+	}
+	// termination: a call from a function with a measure to a function with a measure must decrease it
+	if con.Decreases != nil && e.con != nil && e.con.Decreases != nil && clauseActive(*con.Decreases, e.prop) {
+		callerEnv := e.specEnv(e.initState, e.initState, nil)
+		m0, err0 := callerEnv.EvalVal(e.con.Decreases.Expr)
+		m1, err1 := env.EvalVal(con.Decreases.Expr)
+		name := fmt.Sprintf("call.%s.decreases@%s", mangle(con.Name), e.posOf(in))
+		if err0 != nil || err1 != nil {
+			e.bindFail(name, fmt.Sprint(err0, err1))
+		} else {
+			e.oblige(&Obligation{Name: name, Kind: "decreases", Clause: con.Decreases.Src + " < " + e.con.Decreases.Src, Tags: con.Decreases.Tags, Guard: e.curGuard,
+				Goal: and(sx("<", m1.T, m0.T), sx(">=", m0.T, "0")), Pos: e.posOf(in)})
 		}
 	}
 	// havoc declared modifies
